@@ -168,6 +168,14 @@ def build_loss(case, rng):
                      reads=("theta", "phi"))
         pr.make_data(B)
         loss = pr.loss()
+        if (case["seed"] // 3) % 3 == 2 or case["seed"] % 7 == 3:  # (seed % 3 selects the order of the modes)
+            # one parameter declared heterogeneous, the other keys left out of the dictionary (documented: a missing key
+            # means no heterogeneity): the loss object, its static dictionaries included, is an argument like the others
+            hsum = lambda z, params: 0.8 + 0.3 * jnp.sum(z) + 0.1 * jnp.sum(params.eq_params["kappa"])
+            hj = {"ode": lambda t, u, params: hsum(jnp.reshape(t, (1,)), params),
+                  "statio": lambda x, u, params: hsum(x, params),
+                  "nonstatio": lambda t, x, u, params: hsum(jnp.concatenate([t, x]), params)}[kind]
+            loss = pr.loss(hetero={"theta": hj})
         # two batched keys, handed over in reverse-sorted insertion order through the public batch constructor
         tabs = {"theta": rng.uniform(0.5, 1.5, (B, 1)), "phi": rng.uniform(0.1, 0.5, (B, 1))} if want_p else None
         # observation batches carry observed equation parameters in half of the cases
@@ -297,7 +305,14 @@ def run_loss(case, rec):
         return vals(out)
 
     def grad():
+        before = snap_all()
         (tot, terms), _ = guard.call(gfun, params, loss, batch)
+        after = snap_all()
+        for k in before:
+            rec.count("snapshots_compared")
+            if before[k] != after[k]:
+                rec.violation(sig + "/argument-modified-under-grad/%s" % k, "value_and_grad(evaluate) modified '%s': %s"
+                              % (k, diff_path(before[k], after[k])))
         return vals((tot, terms))
 
     order = {"eje": [("eager", eager), ("jit", jitted), ("eager", eager)],
